@@ -20,6 +20,7 @@ model of vlib/models/c05_response.py says what the server must have received:
 """
 
 import asyncio
+import copy
 import collections
 import types
 import datetime
@@ -44,6 +45,7 @@ K_WSGI_LINE = 'wsgi-bodiless-status-matched-by-full-line'
 K_MEDIA_CT = 'typeless-status-media-sets-content-type'
 K_STATUS_SUBCLASS = 'wsgi-str-subclass-status-line-passed-through'
 K_INTENUM = 'asgi-intenum-status-passed-through'
+K_FALSY_STREAM = 'asgi-falsy-stream-treated-as-absent'
 MAX_EVENTS = 500      # a response of at most ~10 chunks never needs more; stops runaway streams
 
 
@@ -358,7 +360,26 @@ HAS_CLOSE = frozenset(['gen', 'iter_close', 'iterable_close', 'file', 'bytesio',
                        'afile_close_aclose'])
 
 
+FALSY_MODES = ['len0', 'boolfalse']
+# stream objects implemented as classes here can be made falsy-but-not-None (a lazily filled buffer / queue class
+# with __len__ or __bool__); generators, lists and the real BytesIO cannot
+FALSY_KINDS = ['iter', 'iter_close', 'iterable_close', 'file', 'file_noclose', 'iter_close_exit', 'file_close_exit',
+               'aiter_none', 'aiter_stop', 'aiter_close', 'afile', 'afile_noclose', 'aiter_close_aclose',
+               'aiterable_close_aclose', 'afile_close_aclose']
+
+
 def make_stream(st, log):
+    obj = _make_stream(st, log)
+    mode = st.get('falsy')
+    if mode:
+        cls = type(obj)
+        ns = {'__len__': lambda self: 0} if mode == 'len0' else {'__bool__': lambda self: False}
+        obj.__class__ = type('Falsy' + cls.__name__, (cls,), ns)
+        assert not obj and obj is not None
+    return obj
+
+
+def _make_stream(st, log):
     kind, chunks, raise_at = st['kind'], st['chunks'], st.get('raise_at')
     y = bool(st.get('yieldy'))
     if kind == 'list':
@@ -839,7 +860,18 @@ def _set_pre(resp, op):
     elif op[0] == 'data':
         resp.data = op[1]
     elif op[0] == 'media':
-        resp.media = op[1]
+        resp.media = copy.deepcopy(op[1])       # an object of the application's own (it may change it later)
+    elif op[0] == 'media_mutate_reassign':
+        obj = resp.media                        # the SAME object is updated in place and assigned again
+        new = copy.deepcopy(op[1])
+        if isinstance(obj, dict) and isinstance(new, dict):
+            obj.clear()
+            obj.update(new)
+        elif isinstance(obj, list) and isinstance(new, list):
+            obj[:] = new
+        else:
+            raise ValueError('media_mutate_reassign needs a dict/list of the same type, got %r -> %r' % (obj, new))
+        resp.media = obj
     else:
         raise ValueError(op)
 
@@ -992,9 +1024,14 @@ def summary(res, stack):
     return out
 
 
-def classify(kind, r, problem=None):
+def classify(kind, r, problem=None, extra=None):
     """Narrow classifiers for defects recorded in known_findings.json."""
     code = M.status_code(r['status'])
+    if (r['stack'] == 'asgi' and kind == 'body-mismatch' and (r.get('stream') or {}).get('falsy') and
+            M.selected_source(r) == 'stream' and (extra or {}).get('got_len') == 0):
+        # falcon/asgi/app.py tests the truth value of resp.stream (`if not stream:` / `if stream:`), WSGI tests
+        # `is not None`: a stream object that is falsy (has __len__/__bool__) is silently not sent on ASGI
+        return K_FALSY_STREAM
     if r['stack'] == 'wsgi' and r['status'][0] == 'strsub' and ' ' in r['status'][1]:
         # falcon/util/misc.py code_to_http_status returns a str that contains a space unchanged: an instance of a
         # str subclass reaches start_response as it is (wsgiref: AssertionError 'Status must be of type str')
@@ -1160,7 +1197,7 @@ def judge(rec, r, res, obs):
             wit = {'recipe': compact(orig), 'got': summary(res, stack)}
         w = dict(wit)
         w.update(extra)
-        rec.violation(kind, w, known_key=classify(kind, r, extra.get('problem')))
+        rec.violation(kind, w, known_key=classify(kind, r, extra.get('problem'), extra))
 
     def mon(name):
         rec.count('mon.' + name)
@@ -1246,9 +1283,9 @@ def judge(rec, r, res, obs):
         mon('stream_body')
         if server_failed:
             if not want.startswith(res.body):
-                bad('body-mismatch', want_prefix_of=want[:200])
+                bad('body-mismatch', want_prefix_of=want[:200], got_len=len(res.body))
         elif res.body != want:
-            bad('body-mismatch', want=want[:200], want_len=len(want))
+            bad('body-mismatch', want=want[:200], want_len=len(want), got_len=len(res.body))
     else:
         mon('body_' + src)
         if server_failed:
@@ -1402,6 +1439,8 @@ def note_coverage(rec, r, res, obs):
         rec.count('text_as.%s.%s.%s' % (r['text_as'], stack, r.get('rc', 'std')))
     if r.get('status_before'):
         rec.count('status_sequences')
+    if (r.get('stream') or {}).get('falsy'):
+        rec.count('falsy_stream.' + stack)
     if r.get('fw'):
         rec.count('wsgi.file_wrapper')
     if r.get('prerender') is not None:
@@ -1717,12 +1756,59 @@ def history_patterns():
                 yield [[x, STALE[x]], [y, STALE2[y]], ['render'], [y, None], ['render']]
 
 
+def falsy_stream_cases(stack):
+    """resp.stream set to an object that is falsy but not None (set iff not None, as for every other source)."""
+    kinds = [k for k in (WSGI_KINDS if stack == 'wsgi' else ASGI_KINDS) if k in FALSY_KINDS]
+    n = 0
+    for kind in kinds:
+        for mode in FALSY_MODES:
+            for chunks in ([], [b'a'], [b'alpha-', b'beta-', b'gamma']):
+                base = {'stack': stack, 'method': 'GET', 'status': ['int', 200], 'text': None, 'data': None,
+                        'media': ['unset'], 'sse': None, 'ct': None, 'cl': None, 'rc': RESP_CLASSES[n % 3]}
+                n += 1
+
+                def mk(**kw):
+                    st = {'kind': kind, 'chunks': chunks, 'raise_at': kw.pop('raise_at', None), 'falsy': mode,
+                          'yieldy': bool(n % 2)}
+                    if 'set_len' in kw:
+                        st['set_len'] = kw.pop('set_len')
+                    return dict(base, stream=st, **kw)
+                yield mk()
+                yield mk(method='HEAD')
+                yield mk(method='POST', status=['line', '404 Not Found'], via='mw')
+                yield mk(status=['enum', 204])
+                yield mk(set_len=sum(len(c) for c in chunks))
+                yield mk(text='text wins')
+                yield mk(media=['set', None])
+                yield mk(pre=[['media', {'stale': 1}], ['render'], ['media', None]])
+                if stack == 'wsgi' and kind in FILE_KINDS:
+                    yield mk(fw=True)
+                for k in range(len(chunks) + 1):
+                    yield mk(raise_at=k)
+                for f in range(0, len(chunks) + 2):
+                    yield mk(fail_at=f)
+
+
+def same_object_patterns():
+    """The media object is rendered early, changed in place and assigned again (same identity)."""
+    d0, d1, d2 = {'stale': [1]}, {'fresh': ['in place', 2]}, {}
+    l0, l1 = ['stale'], ['fresh', {'n': 1}]
+    for a, b, c in ((d0, d1, d2), (l0, l1, [])):
+        yield [['media', a], ['render'], ['media_mutate_reassign', b]]
+        yield [['media', a], ['media_mutate_reassign', b]]
+        yield [['media', a], ['render'], ['media_mutate_reassign', b], ['render'], ['media_mutate_reassign', c]]
+        yield [['media', a], ['render'], ['render'], ['media_mutate_reassign', b], ['render']]
+        yield [['media', a], ['render'], ['media_mutate_reassign', a]]          # re-assigned unchanged
+        yield [['media', a], ['render'], ['media', a], ['media_mutate_reassign', b]]     # equal but distinct, then same
+        yield [['data', STALE['data']], ['media', a], ['render'], ['data', None], ['render'], ['media_mutate_reassign', b]]
+
+
 def history_cases(stack):
     """render_body() called at any point of the history, then any subset of the body attributes (re)assigned."""
     kinds = WSGI_KINDS if stack == 'wsgi' else ASGI_KINDS
     subsets = [dict(zip(('text', 'data', 'media', 'stream'), bits)) for bits in itertools.product((0, 1), repeat=4)]
     n = 0
-    for pre in history_patterns():
+    for pre in itertools.chain(history_patterns(), same_object_patterns()):
         for sub in subsets:
             for rc in RESP_CLASSES:
                 n += 1
@@ -1871,6 +1957,8 @@ def gen_recipe(rng):
             st['raise_at'] = rng.randint(0, len(st['chunks']))
         if rng.random() < 0.2:
             st['set_len'] = rng.choice([sum(len(c) for c in st['chunks']), 0, 5])
+        if kind in FALSY_KINDS and rng.random() < 0.15:
+            st['falsy'] = rng.choice(FALSY_MODES)
         if stack == 'asgi':
             st['yieldy'] = rng.random() < 0.5
             if kind in FILE_KINDS and rng.random() < 0.35:
@@ -1943,6 +2031,10 @@ def gen_recipe(rng):
             else:
                 f = rng.choice(['text', 'data', 'media'])
                 pre.append([f, rng.choice([None, STALE[f], STALE2[f]])])
+                if f == 'media' and isinstance(pre[-1][1], dict) and rng.random() < 0.5:
+                    if rng.random() < 0.6:
+                        pre.append(['render'])
+                    pre.append(['media_mutate_reassign', rng.choice([{'fresh': 1}, {}, {'stale': [1], 'more': None}])])
         r['pre'] = pre
         if M.selected_source(M.effective(r)) == 'media' and r['ct'] is not None and r['ct'][0] in ('prop', 'header', 'headers'):
             r['ct'] = [r['ct'][0], rng.choice(JSON_CTS)]
@@ -1980,6 +2072,8 @@ def run(rec):
         'bytes, as all three copies of the rendering logic implement by EAFP; the body is the UTF-8 of its value',
         'falcon\'s lru caches of status normalisation are cleared before every case (functools cache_clear) so that a '
         'verdict depends on the recipe alone; equal-but-distinct statuses in sequence are explicit recipes (status_before)',
+        'a stream object that is falsy (defines __len__/__bool__) but not None is set like any other: WSGI tests '
+        '`is not None`, and the model uses the same rule for ASGI',
         'byte-string statuses (line or bare code) are accepted input (falcon\'s suite assigns resp.status = b\'200 OK\'); '
         'other spellings int() would accept (float, signs, underscores, whitespace) are not generated',
         'read() of an ASYNC file-like may answer None (no data yet, io.RawIOBase convention; falcon normalises it to an '
@@ -1989,7 +2083,7 @@ def run(rec):
     idx = 0
     for stack in ('wsgi', 'asgi'):
         for gen in (grid_cases(stack), falsy_cases(stack), decor_cases(stack), fault_cases(stack, big=not quick),
-                    render_fail_cases(stack), history_cases(stack), late_cases(stack), text_object_cases(stack),
+                    render_fail_cases(stack), history_cases(stack), late_cases(stack), text_object_cases(stack), falsy_stream_cases(stack),
                     status_sequence_cases(stack)):
             for r in gen:
                 idx += 1
@@ -2061,6 +2155,8 @@ def run(rec):
     rec.floor('streamed.asgi.read_answered_none', 50)
     rec.floor('mon.late_ops_leave_response_alone', 500)
     rec.floor('status_sequences', 500)
+    rec.floor('falsy_stream.wsgi', 100)
+    rec.floor('falsy_stream.asgi', 100)
     for t in TEXT_AS:
         for stack in ('wsgi', 'asgi'):
             for rc in RESP_CLASSES:
